@@ -3,6 +3,7 @@ package main
 import (
 	_ "verif/harness/checks"
 	_ "verif/harness/checks/grpa"
+	_ "verif/harness/checks/grpb"
 	"verif/harness/lib"
 )
 
